@@ -12,7 +12,7 @@ def run(tier, v):
     paths = vh.cfg_paths()
     cu, cs = paths[gen.cfg_index(0, False)], paths[gen.cfg_index(0, True)]
     maxlen = 6 if tier == "thorough" else 5
-    # (i) every string over the 12-symbol alphabet, 5 framings
+    # (i) every string over the 16-symbol alphabet (token characters, ASCII and non-ASCII digits, blank, tab, no-break space, upper-case R, +, x), 5 framings
     outs = vh.run_native("c12prefix", [maxlen, 1, cu])
     n = sum(o["cases"] for o in outs)
     present = sum(o["present"] for o in outs)
